@@ -444,6 +444,28 @@ def r2(db, rep):
             else:
                 pos = g.pos(node)
             w = g.reaches_exit_avoiding(pos, [p for p in links if p], skip_edges=skip)
+            if w is not None and how == "assign":
+                # or the link was made through the very pointer that is stored, BEFORE the store: `if (p) p->parent_pdu(this);
+                # inner_pdu_ = p;` - every path to the store passes p->parent_pdu(this) except over edges where p is null
+                v0 = facts.strip_all(val)
+                if v0["k"] == "DeclRefExpr" and v0.get("var") and not any(
+                        x["k"] == "BinaryOperator" and x.get("op") == "=" and strip(x["c"][0]).get("var") == v0["var"] for x in facts.fn_nodes(f)):
+                    pre = [g.pos(x) for x in facts.fn_nodes(f) if x["k"] == "CXXMemberCallExpr" and x.get("cname") == "parent_pdu" and
+                           len(cfg.args(x)) == 1 and strip(cfg.args(x)[0])["k"] == "CXXThisExpr" and cfg.receiver(x) is not None and
+                           facts.strip_all(cfg.receiver(x)).get("var") == v0["var"]]
+                    nskip = set()
+                    for b_ in g.blocks.values():
+                        c_ = g.idx.get(b_.get("cond")) if b_.get("cond") is not None else None
+                        if c_ is None or len(b_["s"]) != 2:
+                            continue
+                        c0_, neg_ = cond.peel(c_)
+                        if c0_["k"] == "BinaryOperator" and c0_.get("op") in ("==", "!=") and (is_null(c0_["c"][1]) or facts.cval(c0_["c"][1]) == 0):
+                            neg_ = neg_ != (c0_["op"] == "==")
+                            c0_ = strip(c0_["c"][0])
+                        if c0_["k"] == "DeclRefExpr" and c0_.get("var") == v0["var"]:
+                            nskip.add((b_["id"], 0 if neg_ else 1))
+                    if pre and g.reached_from_entry_avoiding(pos, [q for q in pre if q], skip_edges=nskip) is None:
+                        w = None
             if w is None:
                 rep.ok("R2-parent", key, site, "followed on every path by inner_pdu_->parent_pdu(this) (or a null test)")
             else:
